@@ -176,7 +176,7 @@ def run(ctx):
         base = [x for g in st_ok[0].guards for x in S.guard_strs(g)] if st_ok else []  # what every successful StartOk is under anyway
         flat = []
         for args, e in eff:
-            mm = _re.match(r'^iter_item\(\((.*)\)\)$', args[1])
+            mm = _re.match(r'^iter_item\((?:std::slice::iter\()?\((.*?)\)\)?\)$', args[1])
             keys = [k.strip() for k in mm.group(1).split(', ')] if mm else [args[1]]
             gs = [x for g in e.guards for x in S.guard_strs(g) if x not in base]
             for k in keys:
